@@ -75,21 +75,37 @@ class Build:
         """goto-cc -c one source; cached by (src, defines, remove_bodies)."""
         key = (src, tuple(defines), bool(pre), tuple(remove_bodies), tuple(extra))
         with self.lock:
-            if key in self.objs:
-                return self.objs[key]
-            tag = hashlib.sha1(repr(key).encode()).hexdigest()[:12]
-            out = os.path.join(self.dir, "%s-%s.o" % (os.path.basename(src).replace(".", "_"), tag))
-            self.objs[key] = out
-        cmd = ["goto-cc", "-c", src, "-o", out] + BASE_FLAGS + self.inc_flags() + list(defines) + list(extra)
+            ent = self.objs.get(key)
+            if ent is None:
+                ent = self.objs[key] = {"lock": threading.Lock(), "out": None, "err": None}
+        # one builder per key; everybody else waits until the object (including body removal) is complete
+        with ent["lock"]:
+            if ent["err"]:
+                raise RuntimeError(ent["err"])
+            if ent["out"]:
+                return ent["out"]
+            try:
+                ent["out"] = self._compile(key, src, defines, pre, remove_bodies, extra)
+            except RuntimeError as e:
+                ent["err"] = str(e)
+                raise
+            return ent["out"]
+
+    def _compile(self, key, src, defines, pre, remove_bodies, extra):
+        tag = hashlib.sha1(repr(key).encode()).hexdigest()[:12]
+        out = os.path.join(self.dir, "%s-%s.o" % (os.path.basename(src).replace(".", "_"), tag))
+        tmp = out + ".tmp.o"
+        cmd = ["goto-cc", "-c", src, "-o", tmp] + BASE_FLAGS + self.inc_flags() + list(defines) + list(extra)
         if pre:
             cmd += ["-include", os.path.join(VERIF, "env", "pre.h")]
         r = sh(cmd)
         if r.returncode != 0:
             raise RuntimeError("goto-cc failed for %s:\n%s" % (src, r.stdout[-4000:]))
         for fn in remove_bodies:
-            r = sh(["goto-instrument", "--remove-function-body", fn, out, out])
+            r = sh(["goto-instrument", "--remove-function-body", fn, tmp, tmp])
             if r.returncode != 0:
                 raise RuntimeError("remove-function-body %s failed on %s:\n%s" % (fn, src, r.stdout[-2000:]))
+        os.rename(tmp, out)
         return out
 
     def link(self, objs, out):
